@@ -44,6 +44,7 @@ type Contract struct {
 	Ensures  []Clause
 	Lets     []Clause // Label = name
 	Modifies []*Node
+	Preserves []*Node
 	ModAll   bool
 	Loops    map[int]*LoopSpec
 	Inline   bool
@@ -191,6 +192,14 @@ func applyDirective(c *Contract, t string, line int) error {
 				return err
 			}
 			c.Modifies = append(c.Modifies, n)
+		}
+	case "preserves":
+		for _, part := range splitTop(rest) {
+			n, err := ParseExpr(part)
+			if err != nil {
+				return err
+			}
+			c.Preserves = append(c.Preserves, n)
 		}
 	case "loop":
 		if len(f) < 3 {
